@@ -246,7 +246,16 @@ def scenario_fixed(env, cfg):
     stepper = solver.make_stepper(state, dt)
     converged = True
     try:
-        t_reached = stepper(state, t0, t0 + n * dt)
+        if cfg.get("split"):
+            # the run is split into two stepper calls (as the controller does at tracker interrupts); the first
+            # requested end is off the step lattice by delta (|delta| < dt/2), so the time reached differs from it
+            n1, n2 = cfg["split"]
+            delta = env.real("delta", -0.4, 0.4) * dt
+            t_mid = stepper(state, t0, t0 + n1 * dt + delta)
+            env.close("split:time-reached-by-first-call=t0+n1*dt", t_mid, t0 + n1 * dt, scale=8)
+            t_reached = stepper(state, t_mid, t_mid + n2 * dt)
+        else:
+            t_reached = stepper(state, t0, t0 + n * dt)
     except ConvergenceError:
         converged = False
     try:
@@ -401,6 +410,8 @@ def cases(tier, seed):
                     out.append(_case(f"{backend}:{s}:n={n}:time-dependent:pt{k}", "scenario_fixed", solver=s, backend=backend, n=n, fix=fx))
             for k, fx in enumerate(cpts):
                 out.append(_case(f"{backend}:{s}:n=2:complex:pt{k}", "scenario_fixed", solver=s, backend=backend, n=2, complex=True, fix=fx))
+            for split in ((2, 1), (1, 2)) if (q and s == "adams-bashforth") else ((2, 1),) if q else ((2, 1), (1, 2), (2, 2)):
+                out.append(_case(f"{backend}:{s}:split-run:{split[0]}+{split[1]}:off-lattice-interrupt:pt0", "scenario_fixed", solver=s, backend=backend, n=sum(split), split=list(split), fix=pts[0]))
         for s in ("implicit", "crank-nicolson"):
             for k, fx in enumerate(pts):
                 for mi in (2,) if q else (2, 3):
